@@ -62,13 +62,16 @@ def _small_mol():
     return gto.M(atom="H 0 0 0", basis={"H": bas}, spin=1, verbose=0)
 
 
-def h_sdmx_generator(env, nfeat=2, nalpha=2, nq=2):
+def h_sdmx_generator(env, nfeat=2, nalpha=2, nq=2, nset=1):
     """E[DM] = sum_i w_i F_i with F = EXXSphGenerator.get_features(DM) for a symmetric symbolic density matrix; get_vxc_ accumulates a
     matrix V0 into the XC matrix and V0 + V0^T (the drivers' symmetrisation) is dE/dDM.  Real code: get_features, get_vxc_,
     _contract_ao_to_bas(_bwd), _contract_ao_to_bas_helper/_single_, _eval_crho_potential, SDMXBasePlan.get_features/get_vxc and, interpreted,
     SDMXcontract_ao_to_bas(_bwd).  Symbolic: the AO values, the convolved-shell values cao, the Y_lm table, the fit matrices, the weights
     and DM.  PySCF's _dot_ao_dm / _dot_ao_ao / _scale_ao / lib.einsum are numpy statements of their documented formulas (with PySCF's
-    memory layout for _dot_ao_dm, which the C code reads through a raw pointer)."""
+    memory layout for _dot_ao_dm, which the C code reads through a raw pointer).  nset = 2: one call with two density matrices (3-d
+    input, per-matrix weights); each accumulated matrix must be the derivative with respect to its own density matrix only."""
+    if nset > 1:
+        return _h_sdmx_generator_sets(env, nfeat, nalpha, nq, nset)
     sd, plans = env.m.sdmx, env.m.plans
     mol = _small_mol()
     nao, nrf, ng = int(mol.nao_nr()), int(sd._get_nrf(mol)), 1
@@ -129,3 +132,118 @@ def h_sdmx_generator(env, nfeat=2, nalpha=2, nq=2):
         for j in range(i, nao):
             sym_v = vm[i, j] + vm[j, i]
             env.vjp("symmetrised_matrix_%d_%d_is_dE_dDM" % (i, j), ys, sdw, ("dm", (i, j)), sym_v if i == j else sym_v * 2)
+
+
+def _h_sdmx_generator_sets(env, nfeat, nalpha, nq, nset):
+    sd, plans = env.m.sdmx, env.m.plans
+    mol = _small_mol()
+    nao, nrf, ng = int(mol.nao_nr()), int(sd._get_nrf(mol)), 1
+    ny = int(sd._get_ylm_atom_loc(mol)[-1])
+
+    class P(plans.SDMXBasePlan):
+        num_l0_feat = nfeat
+        num_l1_feat = 0
+    plan = object.__new__(P)
+    plan.nspin, plan.nalpha, plan.has_coul_list, plan.fit_metric = 1, nalpha, True, "ovlp"
+    plan.settings = types.SimpleNamespace(nfeat=nfeat, n1terms=0)
+    plan.fit_matrices = [env.arr("M%d" % i, (nq, nalpha), lo="-2", hi="2") for i in range(nfeat)]
+    ao = env.arr("ao", (ng, nao), lo="-2", hi="2")
+    cao = env.arr("cao", (nalpha, ng, nrf), lo="-2", hi="2")
+    ylm = env.arr("ylm", (1, ny, ng), lo="-2", hi="2")
+    w = env.arr("w", (nset, nfeat, ng), lo="-2", hi="2")
+    dms = env.zeros((nset, nao, nao))
+    for k in range(nset):
+        tri = env.arr("dm%d" % k, (nao, nao), lo="-2", hi="2")
+        for i in range(nao):
+            for j in range(nao):
+                dms[k, i, j] = tri[min(i, j), max(i, j)]
+    coords = np.ascontiguousarray(np.array([[0.3, -0.2, 0.5]]))
+    gen = sd.EXXSphGenerator(plan)
+    gen._get_ylm = lambda mol_, coords_, ylm_atom_loc=None, savebuf=True: ylm.copy()
+    from ..sym import SArr
+    as_obj = lambda a: np.asarray(a, dtype=object if env.sym else float)
+    sa = lambda a: a.view(SArr) if env.sym else a
+    ref = dict(_dot_ao_dm=lambda mol_, ao_, dm_, non0tab, shls_slice, ao_loc, out=None: sa(np.ascontiguousarray(np.dot(as_obj(dm_).T, as_obj(ao_).T))).T,
+               _dot_ao_ao=lambda mol_, a1, a2, non0tab, shls_slice, ao_loc, hermi=0: sa(np.dot(as_obj(a1).T, as_obj(a2))),
+               _scale_ao=lambda a, wv, out=None: sa(np.einsum("npi,np->pi", as_obj(a), as_obj(wv))))
+    old = {k: getattr(sd, k) for k in ref}
+    old_lib, old_pl = sd.lib, plans.pyscflib
+    if env.sym:
+        for k, v in ref.items():
+            setattr(sd, k, v)
+        sd.lib = types.SimpleNamespace(einsum=lambda s_, a, b: sa(np.einsum(s_, as_obj(a), as_obj(b))))
+        plans.pyscflib = types.SimpleNamespace(dot=lambda a, b: np.dot(a, b), einsum=lambda s_, a, b: np.einsum(s_, a, b))
+    cast = (lambda a: a.copy()) if env.sym else (lambda a: np.ascontiguousarray(a, dtype=float))
+    try:
+        ok, feat = env.attempt("get_features_returns", lambda: gen.get_features(cast(dms), mol, coords, ao=cast(ao), cao=cast(cao)))
+        if not ok:
+            return
+        v0 = env.zeros((nset, nao, nao))
+        ok, _ret = env.attempt("get_vxc_returns", lambda: gen.get_vxc_(v0, cast(w)))
+        if not ok:
+            return
+        # the drivers' other calling convention: one get_features for all matrices, then one get_vxc_ per matrix on a 2-d slice
+        v1 = env.zeros((nset, nao, nao))
+        gen2 = sd.EXXSphGenerator(plan)
+        gen2._get_ylm = gen._get_ylm
+        feats1 = []
+        for k in range(nset):
+            feats1.append(gen2.get_features(cast(dms[k]), mol, coords, ao=cast(ao), cao=cast(cao)))
+            gen2.get_vxc_(v1[k], cast(w[k]))
+    finally:
+        for k, v in old.items():
+            setattr(sd, k, v)
+        sd.lib, plans.pyscflib = old_lib, old_pl
+    env.check("shapes", np.shape(feat) == (nset, nfeat, ng) and np.shape(v0) == (nset, nao, nao), "%s %s" % (np.shape(feat), np.shape(v0)))
+    ys = [feat[k, i, g] for k in range(nset) for i in range(nfeat) for g in range(ng)]
+    sdw = [w[k, i, g] for k in range(nset) for i in range(nfeat) for g in range(ng)]
+    for k in range(nset):
+        for i in range(nao):
+            for j in range(i, nao):
+                sym_v = v0[k, i, j] + v0[k, j, i]
+                env.vjp("set%d_symmetrised_matrix_%d_%d_is_dE_dDM%d" % (k, i, j, k), ys, sdw, ("dm%d" % k, (i, j)), sym_v if i == j else sym_v * 2)
+        for i in range(nfeat):
+            env.equal("set%d_feature_%d_equals_separate_call" % (k, i), feat[k, i, 0], feats1[k][i, 0])
+        for i in range(nao):
+            for j in range(nao):
+                env.equal("set%d_matrix_%d_%d_equals_separate_call" % (k, i, j), v0[k, i, j], v1[k, i, j])
+
+
+def h_sdmx_plan_variant(env, kind, nspin=2, na=2, ng=1):
+    """the two other implementations of the same value/potential pair: SADMPlan (one fit matrix, one feature) and SDMXIntPlan
+    (numerical-integration weights per feature); again get_vxc is half of dE/dp"""
+    plans = env.m.plans
+    old = plans.pyscflib
+    plans.pyscflib = types.SimpleNamespace(dot=lambda a, b: np.dot(a, b), einsum=lambda s, a, b: np.einsum(s, a, b))
+    try:
+        if kind == "SADMPlan":
+            p = object.__new__(plans.SADMPlan)
+            p.nspin, p.nalpha, p.settings = nspin, na, types.SimpleNamespace(nfeat=1)
+            p.fit_matrix = env.arr("M", (2, na), lo="-2", hi="2")
+            n0, n1, nv = 1, 0, 1
+            mk0, mk1 = (lambda: env.zeros((1, 2, ng))), (lambda: None)
+        else:
+            n0, n1, nv = 2, 1, 4
+            p = object.__new__(plans.SDMXIntPlan)
+            p.nspin, p.nalpha, p.settings = nspin, na, types.SimpleNamespace(nfeat=n0 + n1)
+            p._num_l0_feat, p._num_l1_feat = n0, n1
+            p.wt_dict = [env.arr("wt%d" % i, (na,), lo="-2", hi="2") for i in range(n0 + n1)]
+            mk0, mk1 = (lambda: env.zeros((na, ng))), (lambda: env.zeros((3, na, ng)))
+        x = env.arr("p", (nv, na, ng), lo="-2", hi="2")
+        w = env.arr("w", (n0 + n1, ng), lo="-2", hi="2")
+        l0tmp, l1tmp = mk0(), mk1()
+        ok, feat = env.attempt("get_features_returns", lambda: p.get_features(x.copy(), out=env.zeros((n0 + n1, ng)), l0tmp=l0tmp, l1tmp=l1tmp))
+        if not ok:
+            return
+        ok, out = env.attempt("get_vxc_returns", lambda: p.get_vxc(w.copy(), l0tmp, l1tmp))
+        if not ok:
+            return
+    finally:
+        plans.pyscflib = old
+    env.check("shapes", np.shape(feat) == (n0 + n1, ng) and np.shape(out) == (nv, na, ng), "%s %s" % (np.shape(feat), np.shape(out)))
+    ys = [feat[i, g] for i in range(n0 + n1) for g in range(ng)]
+    sd = [w[i, g] for i in range(n0 + n1) for g in range(ng)]
+    for v in range(nv):
+        for a in range(na):
+            for g in range(ng):
+                env.vjp("twice_get_vxc_v%d_a%d_g%d_is_dE_dp" % (v, a, g), ys, sd, ("p", (v, a, g)), out[v, a, g] * 2)
